@@ -34,6 +34,8 @@ def main():
     if not clean():
         print("/repo is not clean; refusing"); sys.exit(2)
     results = []
+    # evidence files are rewritten by every check run: keep the clean-tree ones
+    sh(f"rm -rf {HERE}/out/evidence.bak && mkdir -p {HERE}/out && cp -r {HERE}/evidence {HERE}/out/evidence.bak")
     for m in MUTANTS:
         if only and only not in m["name"]: continue
         if prop and prop not in m["checks"]: continue
@@ -59,6 +61,7 @@ def main():
                 if res[c]["msg"]: print("     ", c, res[c]["msg"])
         finally:
             sh("git checkout -- .", cwd=REPO)
+    sh(f"rm -rf {HERE}/evidence && mv {HERE}/out/evidence.bak {HERE}/evidence")
     if not clean():
         print("WARNING: /repo not clean after run")
     json.dump(results, open(os.path.join(HERE, "out", "mutate_last.json"), "w"), indent=1)
